@@ -1,3 +1,4 @@
+import TypVerif.Gen.MapSetShapes
 import TypVerif.Gen.MapsShapes
 import TypVerif.Gen.SlicesShapes
 /-
@@ -52,5 +53,12 @@ theorem gen_shapes_maps :
        ("HasKey", ["return ok"]),
        ("Keys", ["call make", "call len", "range m", "call append", "return keys"]),
        ("Values", ["call make", "call len", "range m", "call append", "return values"])] := rfl
+
+/-- maps/set.go, NewSetFromSlice / Set.Add / Set.Has - DEPENDENCIES of Except / ExceptSet: 3 function(s) -/
+theorem gen_shapes_dep_set :
+    Gen.MapSetShapes.funcs.filter (fun f => (["NewSetFromSlice", "Set.Add", "Set.Has"]).contains f.1) =
+      [("NewSetFromSlice", ["call make", "range slice", "call set.Add", "return set"]),
+       ("Set.Has", ["return has"]),
+       ("Set.Add", ["if s.Has(value)", "call s.Has", "return false", "store s[value]", "return true"])] := rfl
 
 end C14
